@@ -572,6 +572,7 @@ func runC07(c *run.Ctx) {
 	}
 	c.Set("responses_checked", responses)
 	c07UnionNoMember(c)
+	c07Sequence(c)
 }
 
 // ---------------------------------------------------------------- a value under a union that is no member
